@@ -78,6 +78,39 @@ def judge(run, pid, results, kind, also=(), collect=None):
     return totals
 
 
+def perpetual_family(run, scen, quick, want):
+    """Direction spec -> code: TLC enumerates from Chess.tla alone the members of Fam.tla's family `perp` (king + queen against
+    a king on the edge that is ahead in material) that hold a FORCED perpetual check, and appends them to the scenario file:
+    `want` = "root" -> the checking side to move without a history and after one cycle (C12: the perpetual returns to the root
+    at ply 4, a second / a third occurrence); "offer" -> two cycles and a half, the side that is ahead in check with its only
+    move leading into a position that has occurred twice (C10)."""
+    smp = 2 if quick else 1
+    r = vcommon.tlc("Fam", "Fam_perp.cfg", env={"FAMILY": "perp", "SAMPLE": str(smp), "OFFSET": str(vcommon.seed() % smp)}, workers=vcommon.NCPU, xmx="8g", timeout=3000)
+    if not r["ok"]:
+        raise ToolError("perp family enumeration failed:\n%s" % r["out"][-1500:])
+    members = vcommon.tlc_prints(r["out"], "PERP")
+    if len(members) < 5:
+        raise ToolError("coverage hole: perp family too small (%d)" % len(members))
+    run.add("states", r["distinct"])
+    run.add("transitions", r["states"])
+    rev = lambda t: t[2:4] + t[0:2]
+    extra = []
+    for m in members:
+        fen = m[1]
+        for t1, t2 in sorted(tuple(x) for x in m[2]):
+            cyc = [t1, t2, rev(t1), rev(t2)]
+            if want == "root":
+                extra.append({"tag": "small", "cmd": "position fen " + fen})
+                extra.append({"tag": "small", "cmd": "position fen %s moves %s" % (fen, " ".join(cyc))})
+            else:
+                extra.append({"tag": "rep", "cmd": "position fen %s moves %s" % (fen, " ".join(cyc + cyc + cyc[:3]))})
+            break
+    sc = json.load(open(scen))
+    json.dump(sc + extra, open(scen, "w"))
+    run.cov["perpetual_family"] = {"members_with_a_forced_perpetual": len(members), "placements_enumerated": r["distinct"], "sample": "1/%d" % smp,
+                                   "scenarios_added": len(extra)}
+
+
 def make_scenarios(h, small, mate, rep, game, label, fam=0, deep=0):
     path = os.path.join(vcommon.BUILD, "scen-%s-%d.json" % (label, os.getpid()))
     vcommon.run_harness(h, ["scen", "--out", path, "--seed", vcommon.seed(), "--small", small, "--mate", mate, "--rep", rep, "--game", game, "--fam", fam, "--deep", deep])
@@ -292,6 +325,7 @@ def c10(tier, replay):
     checks_uci.position_dumps(run, "C10", tier)
     # (c) search on histories that offer a third repetition: completed depths never below zero; value = Ref with the record
     scen = make_scenarios(h, 0, 0, 24 if q else 150, 0, "C10")
+    perpetual_family(run, scen, q, "offer")
     t2, summ = run_expiry(run, "C10", h, scen, "rep", 4, 0, 400000, 2, "rep")
     if t2.get("sfull", 0) == 0:
         raise ToolError("coverage hole: no repetition scenarios")
@@ -392,6 +426,7 @@ def c12(tier, replay):
     h = vcommon.build_harness()
     q = tier == "quick"
     scen = make_scenarios(h, 12 if q else 150, 8 if q else 40, 8 if q else 60, 6 if q else 60, "C12", 90 if q else 600)
+    perpetual_family(run, scen, q, "root")
     totals, summ = run_trees(run, "C12", h, scen, "small,mate,rep,game,fam", 3, 60000, 400000, "trees")
     if totals.get("stree", 0) < 5:
         raise ToolError("coverage hole: fewer than 5 trees recorded")
